@@ -1,13 +1,18 @@
 import FxVerif.Model.C05
 import FxVerif.Model.C05Ext
+import FxVerif.Model.C06Vote
 import FxVerif.Model.Util
 /-! line-protocol driver for the C05/C06 model: `lake env lean --run Driver/C05.lean < ops.txt` -/
-open FxVerif FxVerif.Util FxVerif.Model.C05
+open FxVerif FxVerif.Util FxVerif.Model.C05 FxVerif.Model.C06Vote
 
+/-- `vs.base` is the C05 state; the rest of `vs` is the voting layer of `Model/C06Vote.lean` (oracle powers, attestations,
+last event nonce by oracle) -/
 structure St where
-  s : State := {}
+  vs : VState := {}
   x : Ext := {}
   nActors : Nat := 0
+
+def St.s (st : St) : State := st.vs.base
 
 def nat? (w : String) : Option Nat := w.toNat?
 
@@ -39,7 +44,13 @@ def showState (st : St) (r : Res) : String :=
     (List.range s.nTokens).map fun t => toString (getBal s.erc (a, t)))
   let rel := ",".intercalate ((s.relTx.mergeSort (fun a b => a ≤ b)).map toString)
   let fm := ",".intercalate ((s.fromMsg.mergeSort (fun a b => a ≤ b)).map toString)
-  s!"{res} next={s.nextTxId},{s.nextBatchId},{s.nextCallId} pool=[{pool}] batches=[{batches}] calls=[{calls}] pend=[{pend}] obs={s.obsExt},{s.obsFx},{s.eventNonce} bal={bal} erc={erc} rel=[{rel}] frommsg=[{fm}]"
+  -- the voting layer: the stored attestations of the last observed and of later event nonces (event nonce, voters in vote
+  -- order, observed), and the last event nonce of every oracle
+  let atts := ";".intercalate (((st.vs.atts.filter fun a => decide (s.eventNonce ≤ a.nonce)).mergeSort
+      (fun a b => a.nonce * 1000 + a.votes.headD 0 ≤ b.nonce * 1000 + b.votes.headD 0)).map fun a =>
+    s!"{a.nonce}:" ++ ",".intercalate (a.votes.map toString) ++ s!":{if a.observed then 1 else 0}")
+  let last := ",".intercalate (st.vs.last.map toString)
+  s!"{res} next={s.nextTxId},{s.nextBatchId},{s.nextCallId} pool=[{pool}] batches=[{batches}] calls=[{calls}] pend=[{pend}] obs={s.obsExt},{s.obsFx},{s.eventNonce} bal={bal} erc={erc} rel=[{rel}] frommsg=[{fm}] atts=[{atts}] last={last}"
 
 /-- the line also says whether the external-chain ghost (`Model/C05Ext.lean`) finds an observed event admissible -/
 def apply (st : St) (op : Op) : St × String :=
@@ -47,8 +58,40 @@ def apply (st : St) (op : Op) : St × String :=
   let adm := match op with
     | .observe _ _ => if decide (admissible st.x op) then "1" else "0"
     | _ => "-"
-  let st' := { st with s := s', x := st.x.next st.s op }
+  let st' := { st with vs := { st.vs with base := s' }, x := st.x.next st.s op }
   (st', showState st' r ++ s!" adm={adm}")
+
+/-- the external-chain ghost sees the `observe` a quorum-completing vote performs (once per line) -/
+def afterVotes (st : St) (vs : VState) (crossed : Option (Op × Res)) (last : Res) : St × String :=
+  match crossed with
+  | some (op, r) =>
+    let adm := if decide (admissible st.x op) then "1" else "0"
+    let st' := { st with vs := vs, x := st.x.next st.s op }
+    (st', showState st' r ++ s!" adm={adm}")
+  | none =>
+    let st' := { st with vs := vs }
+    (st', showState st' last ++ " adm=-")
+
+/-- one `MsgClaim` of oracle `o` -/
+def applyVote (st : St) (o n h : Nat) (ev : Ev) : St × String :=
+  let r := voteCore FxVerif.Gen.C06.claimHashFields st.vs o n h ev
+  afterVotes st r.1 (r.2.2.map fun op => (op, r.2.1)) r.2.1
+
+/-- `obs h ev`: every oracle that has not yet voted for the next event nonce submits the same claim, in index order; the
+answer is that of the vote that completed the quorum (the last vote's if none did) -/
+def applyObs (st : St) (h : Nat) (ev : Ev) : St × String :=
+  if st.vs.powers.isEmpty then apply st (.observe h ev) else
+  let n := st.s.eventNonce + 1
+  let os := (List.range st.vs.powers.length).filter (fun o => st.vs.last.getD o 0 + 1 = n)
+  let (vs, crossed, last) := os.foldl (fun (acc : VState × Option (Op × Res) × Res) o =>
+    let r := voteCore FxVerif.Gen.C06.claimHashFields acc.1 o n h ev
+    (r.1, (match acc.2.1, r.2.2 with
+           | some c, _ => some c
+           | none, some op => some (op, r.2.1)
+           | none, none => none), r.2.1)) (st.vs, none, Res.err)
+  afterVotes st vs crossed last
+
+def parseNats (w : String) : Option (List Nat) := (w.splitOn ",").mapM nat?
 
 def str (w : String) : String := if w == "-" then "" else w
 
@@ -59,8 +102,15 @@ def stepLine (st : St) (line : String) : St × String :=
     | some na, some nt, some b0, some e0, some p1, some p2, some p3, some p4, some fx =>
       let bal : Bal := (List.range na).flatMap fun a => (List.range nt).map fun t => ((a, t), b0)
       let erc : Bal := (List.range na).flatMap fun a => (List.range nt).map fun t => ((a, t), e0)
-      ({ s := { init nt bal ⟨p1, p2, p3, p4⟩ with fxHeight := fx, erc := erc }, nActors := na }, "ok")
+      ({ vs := { base := { init nt bal ⟨p1, p2, p3, p4⟩ with fxHeight := fx, erc := erc } }, nActors := na }, "ok")
     | _, _, _, _, _, _, _, _, _ => (st, "bad-op")
+  | ["reset", na, nt, b0, e0, p1, p2, p3, p4, fx, pws, tot] =>   -- with the oracles' powers and the recorded total power
+    match nat? na, nat? nt, nat? b0, nat? e0, nat? p1, nat? p2, nat? p3, nat? p4, nat? fx, parseNats pws, nat? tot with
+    | some na, some nt, some b0, some e0, some p1, some p2, some p3, some p4, some fx, some pws, some tot =>
+      let bal : Bal := (List.range na).flatMap fun a => (List.range nt).map fun t => ((a, t), b0)
+      let erc : Bal := (List.range na).flatMap fun a => (List.range nt).map fun t => ((a, t), e0)
+      ({ vs := vinit { init nt bal ⟨p1, p2, p3, p4⟩ with fxHeight := fx, erc := erc } pws tot, nActors := na }, "ok")
+    | _, _, _, _, _, _, _, _, _, _, _ => (st, "bad-op")
   | "reset" :: _ => ({}, "ok")
   | ["send", a, d, t, am, f] =>
     match nat? a, nat? t, nat? am, nat? f with
@@ -104,16 +154,29 @@ def stepLine (st : St) (line : String) : St × String :=
     | _, _, _ => (st, "bad-op")
   | ["obs", h, "batch", t, n] =>
     match nat? h, nat? t, nat? n with
-    | some h, some t, some n => apply st (.observe h (.batch t n))
+    | some h, some t, some n => applyObs st h (.batch t n)
     | _, _, _ => (st, "bad-op")
   | ["obs", h, "result", c, ok] =>
     match nat? h, nat? c with
-    | some h, some c => if ok == "0" || ok == "1" then apply st (.observe h (.result c (ok == "1"))) else (st, "bad-op")
+    | some h, some c => if ok == "0" || ok == "1" then applyObs st h (.result c (ok == "1")) else (st, "bad-op")
     | _, _ => (st, "bad-op")
   | ["obs", h, "other"] =>
     match nat? h with
-    | some h => apply st (.observe h .other)
+    | some h => applyObs st h .other
     | none => (st, "bad-op")
+  | ["vote", o, n, h, "batch", t, b] =>
+    match nat? o, nat? n, nat? h, nat? t, nat? b with
+    | some o, some n, some h, some t, some b => applyVote st o n h (.batch t b)
+    | _, _, _, _, _ => (st, "bad-op")
+  | ["vote", o, n, h, "result", c, ok] =>
+    match nat? o, nat? n, nat? h, nat? c with
+    | some o, some n, some h, some c =>
+      if ok == "0" || ok == "1" then applyVote st o n h (.result c (ok == "1")) else (st, "bad-op")
+    | _, _, _, _ => (st, "bad-op")
+  | ["vote", o, n, h, "other"] =>
+    match nat? o, nat? n, nat? h with
+    | some o, some n, some h => applyVote st o n h .other
+    | _, _, _ => (st, "bad-op")
   | ["exec", n] =>
     match nat? n with
     | some n => apply st (.exec n)
